@@ -92,6 +92,81 @@ Theorem C06_newick_nodes_once :
 Proof. exact newick_export_gen. Qed.
 Print Assumptions C06_newick_nodes_once.
 
+(* ROUND TRIP WITH FLOAT LENGTHS.  Lengths are exact decimals: a float is the fraction (digits of its repr
+   without the dot) / 10^k, resp. mantissa x 10^exponent for the exponent form (this is how the harness
+   encodes every float it sees, input and rebuilt).  The model writes them as Python's repr does
+   (positional for decimal exponent -4 <= e < 16, else d[.ddd]e+XX / d[.ddd]e-XX) and reads literals
+   [-]digits[.digits][(e|E)[+|-]digits] with <= 15 significant digits and |exponent| <= 290 exactly.
+   Guard: newick_alphabet_ext (as newick_alphabet, lengths may be any non-zero float) and
+   lengths_canonical: every exported length v satisfies lit_okb v, i.e. str(v) is a token without
+   special characters and int()/float() of that token is v again (same type, same fraction n / 10^k).
+   IN: positive integers; floats of either sign in every repr form -- 0.5, 2.0, 100.0, 0.0001,
+   1234567.5, 1e-05, 2.5e-07, 1e+16, -3e+20 (dot or no dot, exponent sign + or -), see the Example.
+   OUT (lit_okb false): length 0 / 0.0 (falsy: the exporter raises), negative integers (-5 is read back as
+   the float -5.0: C06_newick_negative_int_length_refuted), non-numeric lengths, floats with more than 15
+   significant digits or |exponent| > 290, fractions that are not the repr's own digits (e.g. 50/100). *)
+Theorem C06_newick_roundtrip_float :
+  forall inter len keys pf isroot t,
+    newick_alphabet_ext (NwOpt inter len keys pf true) isroot t = true ->
+    lengths_canonical len isroot t = true ->
+    exists s back,
+      nw_write (NwCfg inter len [58] keys pf [58]) isroot t = Ret s
+      /\ nw_parse (la_of (NwOpt inter len keys pf true)) pf s = Ret back
+      /\ prop_newick_back (NwOpt inter len keys pf true) isroot t back = true.
+Proof. exact newick_roundtrip_ext. Qed.
+Print Assumptions C06_newick_roundtrip_float.
+
+(* non-vacuity: one tree with a length in every form; the text the model writes is
+   ((c:-2.5e-07)a:1e-05,b:1e+16,d:0.0001,e:7,f:2.0,g:-3e+20,h:1234567.5)r *)
+Definition ex_float_tree : tree :=
+  T None [114] []
+    [ T None [97] [([76], VFloat 1 100000)] [ T None [99] [([76], VFloat (-25) 100000000)] [] ];
+      T None [98] [([76], VFloat 10000000000000000 1)] [];
+      T None [100] [([76], VFloat 1 10000)] [];
+      T None [101] [([76], VInt 7)] [];
+      T None [102] [([76], VFloat 20 10)] [];
+      T None [103] [([76], VFloat (-300000000000000000000) 1)] [];
+      T None [104] [([76], VFloat 12345675 10)] [] ].
+Example C06_newick_float_guard_satisfiable :
+  newick_alphabet_ext (NwOpt true [76] [] [] true) true ex_float_tree = true
+  /\ lengths_canonical [76] true ex_float_tree = true
+  /\ nw_write (NwCfg true [76] [58] [] [] [58]) true ex_float_tree
+     = Ret [40; 40; 99; 58; 45; 50; 46; 53; 101; 45; 48; 55; 41; 97; 58; 49; 101; 45; 48; 53; 44;
+            98; 58; 49; 101; 43; 49; 54; 44; 100; 58; 48; 46; 48; 48; 48; 49; 44; 101; 58; 55; 44;
+            102; 58; 50; 46; 48; 44; 103; 58; 45; 51; 101; 43; 50; 48; 44;
+            104; 58; 49; 50; 51; 52; 53; 54; 55; 46; 53; 41; 114].
+Proof. repeat split; vm_compute; reflexivity. Qed.
+
+(* which length values are literals that read back as themselves *)
+Example C06_newick_length_literals :
+  map lit_okb [VInt 7; VFloat 5 10; VFloat 20 10; VFloat 1 100000; VFloat (-25) 100000000;
+               VFloat 10000000000000000 1; VFloat (-15) 10;
+               VInt 0; VFloat 0 10; VInt (-5); VStr [120]; VFloat 50 100; VFloat 1 3]
+  = [true; true; true; true; true; true; true; false; false; false; false; false; false].
+Proof. vm_compute. reflexivity. Qed.
+
+(* outside: a negative integer length is written "-5" and comes back as the float -5.0 *)
+Example C06_newick_negative_int_length_refuted :
+  exists t s back,
+    nw_write (NwCfg true [76] [58] [] [] [58]) true t = Ret s
+    /\ nw_parse [76] [] s = Ret back
+    /\ prop_newick_back (NwOpt true [76] [] [] true) true t back = false.
+Proof.
+  exists (T None [114] [] [ T None [98] [([76], VInt (-5))] [] ]). eexists. eexists.
+  split; [vm_compute; reflexivity|]. split; vm_compute; reflexivity.
+Qed.
+
+(* outside: a length 0 is "missing" for the exporter (ValueError "Length attribute does not exist") *)
+Example C06_newick_zero_length_refuted :
+  nw_write (NwCfg true [76] [58] [] [] [58]) true (T None [114] [] [ T None [98] [([76], VInt 0)] [] ])
+  = Raise ValueError.
+Proof. vm_compute. reflexivity. Qed.
+
+(* Node classes: the models never compare nodes (no ==, in, index on nodes) and build fresh nodes by name
+   only, so neither a value-equality subclass (__eq__/__hash__ by name) used for the input tree nor the
+   node_type handed to the importers can matter for either round trip; the harness exercises both
+   (input class ValueEq, node_type = subclass) on every stratum and demands nodes of the requested class. *)
+
 (* non-vacuity of the guard with a length and two attributes (one of them with a special key) *)
 Definition ex_attr_tree : tree :=
   T (Some 0%nat) [97] [([65], VInt 90); ([107], VStr [104; 117]); ([120; 58; 121], VStr [40; 49; 41])]
@@ -188,6 +263,30 @@ Proof.
   unfold prop_print_back. apply tree_eqb_refl.
 Qed.
 Print Assumptions C06_print_roundtrip.
+
+(* The same on the printed TEXT, literally: str_to_tree gives back the input with tags and attributes
+   erased.  The only name guard is print_alphabet's: non-empty, printable ASCII (no newline, no
+   non-ASCII character, hence never a style glyph), no leading blank.  There is NO bracket / digit /
+   inner-blank restriction: names such as argv[1], docs [draft], x[0] next to x[1], a [age=90], 1, 1.5,
+   1e-05 are inside (Example below). *)
+Theorem C06_print_roundtrip_text :
+  forall stem branch final t,
+    print_alphabet (stem, branch, final) t = true ->
+    exists s, print_str (stem, branch, final) t = Ret s /\ str_to_tree_m s = Ret (erase t).
+Proof. exact print_roundtrip. Qed.
+Print Assumptions C06_print_roundtrip_text.
+
+(* argv[1](docs [draft](x[0], x[1], a [age=90](b [x=1, y=2])), 1e-05, 1.5, 1) *)
+Definition ex_bracket_tree : tree :=
+  T None [97; 114; 103; 118; 91; 49; 93] []
+    [ T None [100; 111; 99; 115; 32; 91; 100; 114; 97; 102; 116; 93] []
+        [ T None [120; 91; 48; 93] [] []; T None [120; 91; 49; 93] [] [];
+          T None [97; 32; 91; 97; 103; 101; 61; 57; 48; 93] [] [ T None [98; 32; 91; 120; 61; 49; 44; 32; 121; 61; 50; 93] [] [] ] ];
+      T None [49; 101; 45; 48; 53] [] []; T None [49; 46; 53] [] []; T None [49] [] [] ].
+Example C06_print_bracket_names :
+  print_alphabet style_const ex_bracket_tree = true
+  /\ exists s, print_str style_const ex_bracket_tree = Ret s /\ str_to_tree_m s = Ret (erase ex_bracket_tree).
+Proof. split; [vm_compute; reflexivity|]. eexists. split; vm_compute; reflexivity. Qed.
 
 Example C06_print_guard_satisfiable :
   print_alphabet style_const (T None [97; 32; 98] [] [ T None [120] [] [ T None [40; 121; 41] [] [ T None [122; 32] [] [] ]; T None [49] [] [] ];
